@@ -437,4 +437,9 @@ silent('tok3-reset-order', ['C01', 'C09'], 'the reset of additional_prefix moves
 fire('par-recovery-point-any', ['C05'], ['PAR-10'], 'the recovery point may be any stack entry with more than three nodes',
      (PYPARSER, "                if stack_node.nonterminal == 'file_input':\n                    break", "                if stack_node.nonterminal == 'file_input' or len(stack_node.nodes) > 3:\n                    break"))
 
+fire('shape-funcdef-parameters-by-position', ['C05', 'C14'], ['GR-10b'], 'Function.__init__ takes the parameter list as children[2] (type_params sits there since 3.12)',
+     (PYTREE, "        parameters = self._find_parameters()\n        parameters_children = parameters.children[1:-1]", "        parameters = self.children[2]\n        parameters_children = parameters.children[1:-1]"))
+silent('shape-funcdef-name-by-position', ['C05', 'C14'], 'Function.name through a local (children[1] is NAME in every version)',
+       (PYTREE, "        return self.children[1]  # First token after `def`", "        name_leaf = self.children[1]  # First token after `def`\n        return name_leaf"))
+
 VARIANTS = [v for v in VARIANTS if v is not None]
